@@ -73,6 +73,7 @@ class Run(object):
         self.snaps = []         # snapshots taken inside lineReceived
         self.lost = False
         self.errors = []
+        self.next_kind = None
         self._bootstrap()
 
     # -- set-up ---------------------------------------------------------
@@ -101,7 +102,8 @@ class Run(object):
         def queue_command(cmd, arg=None):
             serial = len(run.cmds) + 1
             text = cmd if isinstance(cmd, bytes) else cmd.encode("ascii")
-            run.cmds.append(dict(text=text, written=False))
+            run.cmds.append(dict(text=text, written=False, kind=run.next_kind))
+            run.next_kind = None
             run.res.append(dict(k="p", cls="", toks=[]))
             d = orig_q(cmd, arg)
             d.addCallbacks(run._ok, run._err, callbackArgs=(serial,), errbackArgs=(serial,))
@@ -135,6 +137,9 @@ class Run(object):
             self._fired(serial, dict(k="ok", cls="2", toks=[-8]))
         else:
             self._fired(serial, dict(k="ok", cls="2", toks=self.toks(value)))
+        if self.cmds[serial - 1].get("kind") == "chain":
+            # the user's success callback submits a follow-up command
+            self.proto.queue_command("GETINFO c%d" % serial)
         return None
 
     def _err(self, f, serial):
@@ -145,6 +150,9 @@ class Run(object):
         else:
             self._fired(serial, dict(k="other", cls="", toks=[]))
             self.errors.append(f.getTraceback())
+        if self.cmds[serial - 1].get("kind") == "retry":
+            # the user's errback retries
+            self.proto.queue_command("GETINFO r%d" % serial)
         return None
 
     def snapshot(self):
@@ -224,6 +232,7 @@ class Run(object):
                         self.cbnow.append([serial, self.tokmap.get(line, -9)])
                     p.queue_command(text, linecb)
                 else:
+                    self.next_kind = e["k"]
                     p.queue_command(text)
             elif a == "AddL":
                 p.add_event_listener(e["n"], self.listener(e["l"], e["n"]))
@@ -379,50 +388,50 @@ LISTENERS = ["ok1", "ok2", "self", "other", "raise"]
 def random_script(rng, length, lose=True, events=True):
     """a legal environment history (tracks only what legality needs)"""
     script = []
-    queued = 0        # commands queued (any kind) - tracked by mirroring add/remove rules
+    kinds = []        # every command queued so far, in queue order
     replies = 0
     pending = 0
+    cur = curname = curcls = None
     reg = dict((n, []) for n in EVNAMES)
     lost = False
     post = 0
-    # probability weights
     while len(script) < length:
         if lost:
             if post >= 6:
                 break
             post += 1
-            r = rng.random()
-            if r < 0.6:
-                script.append(dict(a="Submit", k=rng.choice(["plain", "cb"])))
+            if rng.random() < 0.6:
+                script.append(dict(a="Submit", k=rng.choice(["plain", "cb", "retry", "chain"])))
             else:
                 script.append(dict(a="WhenDisc"))
             continue
-        if pending:
-            r = rng.random()
-            if r < 0.7:
-                script.append(dict(a="Line"))
-                pending -= 1
-                if pending == 0 and cur == "reply":
-                    replies += 1
-                if pending == 0 and cur == "event":
-                    # listener behaviours change registrations
-                    ls = list(reg[curname])
-                    for l in ls:
-                        if l not in reg[curname]:
-                            continue
-                        if l == "self":
-                            reg[curname].remove(l)
-                            if not reg[curname]:
-                                queued += 1
-                        elif l == "other" and "ok2" in reg[curname]:
-                            reg[curname].remove("ok2")
-                            if not reg[curname]:
-                                queued += 1
-                continue
+        if pending and rng.random() < 0.7:
+            script.append(dict(a="Line"))
+            pending -= 1
+            if pending == 0 and cur == "reply":
+                k = kinds[replies]
+                replies += 1
+                if (k == "chain" and curcls == "2") or (k == "retry" and curcls == "5"):
+                    kinds.append("plain")
+            if pending == 0 and cur == "event":
+                # listener behaviours change registrations
+                for l in list(reg[curname]):
+                    if l not in reg[curname]:
+                        continue
+                    if l == "self":
+                        reg[curname].remove(l)
+                        if not reg[curname]:
+                            kinds.append("se")
+                    elif l == "other" and "ok2" in reg[curname]:
+                        reg[curname].remove("ok2")
+                        if not reg[curname]:
+                            kinds.append("se")
+            continue
         r = rng.random()
         if r < 0.30:
-            script.append(dict(a="Submit", k=rng.choice(["plain", "cb"])))
-            queued += 1
+            k = rng.choice(["plain", "cb", "plain", "cb", "retry", "chain"])
+            script.append(dict(a="Submit", k=k))
+            kinds.append(k)
         elif r < 0.45 and events:
             n = rng.choice(EVNAMES)
             l = rng.choice(LISTENERS)
@@ -430,17 +439,17 @@ def random_script(rng, length, lose=True, events=True):
                 script.append(dict(a="RemL", l=l, n=n))
                 reg[n].remove(l)
                 if not reg[n]:
-                    queued += 1
+                    kinds.append("se")
             else:
                 script.append(dict(a="AddL", l=l, n=n))
                 if not reg[n]:
-                    queued += 1
+                    kinds.append("se")
                 reg[n].append(l)
         elif r < 0.50:
             script.append(dict(a="WhenDisc"))
-        elif r < 0.75 and not pending and queued > replies:
-            cls, sh = rng.choice(REPLY_SHAPES)
-            script.append(dict(a="BeginReply", cls=cls, sh=list(sh)))
+        elif r < 0.75 and not pending and len(kinds) > replies:
+            curcls, sh = rng.choice(REPLY_SHAPES)
+            script.append(dict(a="BeginReply", cls=curcls, sh=list(sh)))
             pending = len(sh)
             cur = "reply"
         elif r < 0.97 and not pending and events:
